@@ -67,7 +67,8 @@ def run(ctx) -> None:
                                 x.append(base + 100 + (0.25 if (k - s0) % 2 else 0.0))
                             else:
                                 x.append(base + float(k))
-                        tol = rng.choice([0, 0.125, 0.25, 0.5, 1.0, 1.5])
+                        # (also a hair above the plateau's ripple, and "exact repeat" tolerances far below any float noise guard)
+                        tol = rng.choice([0, 0.125, 0.25, 0.5, 1.0, 1.5, 0.25 * (1 + 2.0 ** -20), 2.0 ** -40, 1e-9])
                         pm = rng.choice([0, 0, 0.15, 0.4])
                         x = [None if rng.random() < pm else v for v in x]
                         carrier = rng.choice(CARRIERS)
